@@ -57,10 +57,10 @@ Definition chkB (i : Z) : bool :=
   else true.
 
 Lemma chkA_all : check_below 146097 chkA = true.
-Proof. Time vm_compute. reflexivity. Time Qed.
+Proof. vm_cast_no_check (eq_refl true). Qed.
 
 Lemma chkB_all : check_below 148800 chkB = true.
-Proof. vm_compute. reflexivity. Qed.
+Proof. vm_cast_no_check (eq_refl true). Qed.
 
 Lemma eraA : forall doe, 0 <= doe < 146097 ->
   let yoe := yoe_of_doe doe in
